@@ -156,6 +156,9 @@ StatusOk ==
   /\ (status \in {0, 1, 4} /\ ~nullin => file = NFiles /\ pos = Len(files[file]) /\ \A f \in 1..NFiles : \A i \in 1..Len(files[f]) : files[f][i] = "val" \/ << f, i >> \notin used)
 
 Terminates == (status = -1) => ENABLED Next
+\* liveness: under weak fairness every run reaches an exit status
+FairSpec == Spec /\ WF_vars(Next)
+Ends == <>(status # -1)
 
 \* one replay vector per terminated behaviour
 EmitVec == (status # -1) =>
